@@ -11,7 +11,9 @@ EVERY step:
   * vlib/tokenkey.py must unwrap the SAME master key from the SO blob (SO PIN) and the user blob (user PIN), nothing with
     a wrong PIN, and decrypt every byte-string attribute of every private object to exactly the API value;
   * every stored IV (PIN blobs and attribute blobs) is distinct, also from the IVs of all earlier blobs;
-  * stat() of every file and directory: no permission bit outside objectstore.umask (default 0077; 0027, 0007, 0000).
+  * stat() of every file and directory: no permission bit outside objectstore.umask, for ten spellings of four values (line
+    absent, 0077, 077, 77, 0027, 27, 0007, 7, 0, 0000; the expectation is the OCTAL meaning of the text); a dedicated job per
+    (spelling, back-end) also covers a second token, re-initialisation and the SQLite rollback journal (kept by a crash point).
 Histories include PIN changes (C_SetPIN of both users, C_InitPIN), token re-initialisation, restarts.
 Entries nested in CKA_WRAP_TEMPLATE/CKA_UNWRAP_TEMPLATE, booleans, integers and mechanism lists are outside the property."""
 import sys, os; sys.path.insert(0, os.path.join(os.path.dirname(os.path.abspath(__file__)), '..', 'vlib'))
@@ -22,7 +24,10 @@ import persist, tokenkey
 from persist import UNAVAILABLE, ApiError, Lib
 
 CLASSES = ['data', 'cert-x509', 'cert-pgp', 'sk-aes', 'sk-des3', 'sk-des2', 'sk-generic', 'sk-hmac', 'pub-rsa', 'pub-dsa', 'pub-ec', 'pub-dh', 'pub-ed', 'priv-rsa', 'priv-dsa', 'priv-ec', 'priv-dh', 'priv-ed', 'dom-dsa', 'dom-dh']
-UMASKS = {'default': 0o077, '0027': 0o027, '0007': 0o007, '0000': 0o000}
+# objectstore.umask "is in octal" (softhsm2.conf(5)): every spelling is read by its OCTAL meaning, with or without leading zeros
+SPELLINGS = ('default', '0077', '077', '77', '0027', '27', '0007', '7', '0', '0000')
+def umask_of(sp): return 0o077 if sp == 'default' else int(sp, 8)
+UMASKS = {sp: umask_of(sp) for sp in SPELLINGS}
 CONSTANTS = ('CKA_EC_PARAMS', 'CKA_PUBLIC_EXPONENT')       # driver-supplied public constants of generated keys (a curve OID is not a secret, and not fresh)
 MINLEN = 16
 
@@ -430,7 +435,59 @@ def w_rng(job):
         for r_, n in res['hits']: part.violation(f'{call}|{b},rng-fault|plaintext-on-disk', f'an RNG request failed during {call}; a value given to the call is in clear in a {r_} file', dict(w, file=r_, length=n))
     shutil.rmtree(base, ignore_errors=True); return part
 
-def dispatch(job): return w_rng(job) if job['kind'] == 'rng' else w_history(job)
+# ---------------------------------------------------------------- permission bits for every spelling of objectstore.umask
+def w_perm(job):
+    """two tokens; create / generate / copy / set / destroy, re-initialisation, restart; every file and directory below the token
+    directory after every step; db back-end: the rollback journal is kept on disk by a crash point inside a C_CreateObject"""
+    part = Part(); sp = job['umask']; b = job['backend']; um = umask_of(sp); d = os.path.join(job['scratch'], 'perm-%s-%s' % (b, sp)); shutil.rmtree(d, ignore_errors=True); os.makedirs(d)
+    L = Lib(job, d, b, job['cfg'], '' if sp == 'default' else 'objectstore.umask = %s\n' % sp); tok = d + '/tokens'; roles = set(); exact = [False]
+    def check(where):
+        for p, st in persist.all_files(tok):
+            mode = stat.S_IMODE(st.st_mode); r = 'dir' if stat.S_ISDIR(st.st_mode) else role(p); roles.add(r); part.case(('mode-bits', sp, b, r)); part.count('paths_statted')
+            if mode == (0o777 if r == 'dir' else 0o666) & ~um: exact[0] = True
+            if mode & um: part.violation(f'file-mode|{b},umask={sp},{r}|bits-outside-umask', f'a {r} below the token directory has permission bits outside objectstore.umask (written "{sp}", octal)', dict(mode=oct(mode), umask=oct(um), spelling=sp, where=where, backend=b))
+    try:
+        ck = L.ck; L.start(); L.init_token(b'perm-A', so=RSO, user=RUSER); L.init_token(b'perm-B', so=RSO, user=RUSER); check('after C_InitToken x2')
+        S = L.login(b'perm-A', pin=RUSER); x = L.x; T = x.T; assert S is not None
+        mk = lambda priv, lab: x.call('C_CreateObject', s=S, tmpl=T([('CKA_CLASS', ck.CKO_SECRET_KEY), ('CKA_KEY_TYPE', ck.CKK_GENERIC_SECRET), ('CKA_TOKEN', True), ('CKA_PRIVATE', priv), ('CKA_LABEL', lab), ('CKA_VALUE', os.urandom(32)), ('CKA_SENSITIVE', False), ('CKA_EXTRACTABLE', True)]))
+        o1 = mk(True, b'o1'); o2 = mk(False, b'o2'); assert o1['rv'] == 0 and o2['rv'] == 0; check('C_CreateObject')
+        g = x.call('C_GenerateKey', s=S, mech=x.M('CKM_AES_KEY_GEN'), tmpl=T([('CKA_TOKEN', True), ('CKA_PRIVATE', True), ('CKA_VALUE_LEN', 16), ('CKA_LABEL', b'g')])); check('C_GenerateKey')
+        kp = x.call('C_GenerateKeyPair', s=S, mech=x.M('CKM_EC_KEY_PAIR_GEN'), pub=T([('CKA_TOKEN', True), ('CKA_EC_PARAMS', persist.P256)]), priv=T([('CKA_TOKEN', True), ('CKA_PRIVATE', True)])); check('C_GenerateKeyPair')
+        src = x.call('C_CreateObject', s=S, tmpl=T([('CKA_CLASS', ck.CKO_DATA), ('CKA_PRIVATE', False), ('CKA_LABEL', b'src'), ('CKA_VALUE', b'v' * 40)]))
+        x.call('C_CopyObject', s=S, o=src['h'], tmpl=T([('CKA_TOKEN', True), ('CKA_PRIVATE', True), ('CKA_LABEL', b'copy')])); x.call('C_CopyObject', s=S, o=o2['h'], tmpl=T([('CKA_LABEL', b'copy2')])); check('C_CopyObject')
+        x.call('C_SetAttributeValue', s=S, o=o1['h'], tmpl=T([('CKA_ID', os.urandom(20)), ('CKA_LABEL', b'o1-renamed')])); check('C_SetAttributeValue')
+        x.call('C_DestroyObject', s=S, o=o2['h']); check('C_DestroyObject')
+        x.call('C_SetPIN', s=S, old=RUSER.hex(), new=RUSER.hex()); check('C_SetPIN')
+        if b == 'db':
+            # the rollback journal only exists inside a call: number the FS operations of a create, then die right after the first write to the journal
+            x.raw(dict(fn='fs', mode='count', root=tok)); r = mk(True, b'o3'); tr = x.raw(dict(fn='fs', mode='trace'))['trace']; x.raw(dict(fn='fs', mode='off'))
+            ks = [n for n, kind, path in tr if path.endswith('-journal') and kind in ('pwrite', 'write')]
+            if r['rv'] == 0 and ks:
+                x.raw(dict(fn='fs', mode='crash', root=tok, k=ks[0], when='after'))
+                try: mk(True, b'o4'); part.observe('crash point inside the db create was not reached', {'spelling': sp})
+                except Died: pass
+                L.x = None; part.count('journals_seen', sum(1 for p, st in persist.all_files(tok) if role(p) == 'db-side-file')); check('inside C_CreateObject (journal kept by a crash point)')
+                L.start(); S = L.login(b'perm-A', pin=RUSER); assert S is not None; x = L.x; T = x.T; check('after recovery of the hot journal')
+            else: part.observe('no journal write seen in a db create', {'spelling': sp})
+        # re-initialisation of the second token, then objects in it; restart in a new process
+        slotB = L.slot_of(b'perm-B'); r = x.call('C_InitToken', slot=slotB, pin=RSO.hex(), label=b'perm-B2'.hex()); assert r['rv'] == 0, r; check('C_InitToken (re-initialisation)')
+        h = x.call('C_OpenSession', slot=slotB)['h']; assert x.call('C_Login', s=h, user=0, pin=RSO.hex())['rv'] == 0; assert x.call('C_InitPIN', s=h, pin=RUSER.hex())['rv'] == 0; x.call('C_Logout', s=h)
+        assert x.call('C_Login', s=h, user=1, pin=RUSER.hex())['rv'] == 0
+        x.call('C_CreateObject', s=h, tmpl=T([('CKA_CLASS', ck.CKO_DATA), ('CKA_TOKEN', True), ('CKA_PRIVATE', True), ('CKA_LABEL', b'in-B'), ('CKA_VALUE', b'w' * 64)])); check('C_CreateObject in the re-initialised token')
+        L.restart('newproc'); S = L.login(b'perm-A', pin=RUSER); x = L.x
+        if S is not None: x.call('C_CreateObject', s=S, tmpl=x.T([('CKA_CLASS', ck.CKO_DATA), ('CKA_TOKEN', True), ('CKA_PRIVATE', True), ('CKA_LABEL', b'after-restart'), ('CKA_VALUE', b'x' * 64)]))
+        check('new process')
+        need = {'dir', 'db'} if b == 'db' else {'dir', 'token.object', 'lock', 'object', 'generation'}
+        if not need <= roles: part.inconc(f'permission job {b}/{sp}: kinds of path never seen: {sorted(need - roles)}')
+        if exact[0]: part.distinct.add(('mode-control', sp, b))
+        else: part.observe('control failed: no path carries exactly 0666/0777 & ~umask', {'spelling': sp, 'backend': b})
+    except Died as e: part.observe('side:C17 library terminated the host', {'kind': e.kind(), 'fn': e.fn, 'where': e.where(), 'job': 'perm'}); part.inconc(f'executor died ({e.kind()} in {e.fn}) in the permission job {b}/{sp}')
+    except Hang: part.inconc(f'executor hang in the permission job {b}/{sp}')
+    except AssertionError as e: part.inconc(f'permission job {b}/{sp} could not continue: {e!r}')
+    finally: L.stop()
+    shutil.rmtree(d, ignore_errors=True); return part
+
+def dispatch(job): return {'rng': w_rng, 'perm': w_perm}.get(job['kind'], w_history)(job)
 
 def run(ctx):
     ctx.rule = ('one evaluation = one (recorded plaintext, directory scan) pair: after every step every file below the token directory is searched for every plaintext recorded so far '
@@ -438,14 +495,17 @@ def run(ctx):
                 '(>= 16 bytes, dates 8 bytes); the decoder, IV and mode-bit oracles run on the same snapshots and are counted in values_decrypted / ivs_checked / paths_statted')
     cfgs = ['asan'] + ([] if ctx.quick else ['botan']); ctx.need(*cfgs); common = dict(paths=ctx.paths, hdr=ctx.paths['asan']['hdr'], scratch=ctx.scratch); jobs = []; n = 0
     for backend in ('file', 'db'):
-        for um in UMASKS:
+        for um in ('default', '27', '7', '0'):
             for cfg in cfgs:
                 n += 1; jobs.append(dict(common, kind='systematic', systematic=True, seed=ctx.seed * 100003 + n, steps=0, backend=backend, umask=um, cfg=cfg))
     nh = ctx.q(40, 1000); steps = ctx.q(40, 50); ums = list(UMASKS)
     for i in range(nh):
-        jobs.append(dict(common, kind='history', seed=ctx.seed * 100003 + 1000 + i, steps=steps, backend=('file', 'db')[i % 2], umask=ums[(i // 2) % 4], cfg='asan' if (ctx.quick or i % 5) else 'botan'))
+        jobs.append(dict(common, kind='history', seed=ctx.seed * 100003 + 1000 + i, steps=steps, backend=('file', 'db')[i % 2], umask=ums[(i // 2) % len(ums)], cfg='asan' if (ctx.quick or i % 5) else 'botan'))
     for backend in ('file', 'db'):
         for call in RNG_CALLS: jobs.append(dict(common, kind='rng', call=call, backend=backend, cfg='asan', seed=ctx.seed * 100003 + 5000 + len(jobs)))
+    for backend in ('file', 'db'):
+        for sp in SPELLINGS:
+            for cfg in cfgs: jobs.append(dict(common, kind='perm', backend=backend, umask=sp, cfg=cfg))
     jobs.sort(key=lambda j: 0 if j.get('systematic') else 1)          # the long jobs first
     for part in pmap(dispatch, jobs, ctx.nproc): ctx.merge(part)
     ctx.assumptions += ['scans look for verbatim byte strings of >= 16 bytes (dates: 8 bytes from ~3 million values); transformed leaks are out of reach',
